@@ -11,6 +11,9 @@ Theorem case_meets_spec ss inp :
   prop_case inp (run_case inp) = 0.
 Proof. intros Hwf Hcl. unfold prop_case, run_case. apply (model_meets_spec ss); assumption. Qed.
 
+Theorem sig_requires_model inp obs : finding_sig inp obs <> 0 -> obs = run_case inp.
+Proof. unfold finding_sig, run_case. apply finding_code_requires_model. Qed.
+
 Theorem case_explained inp :
   prop_case inp (run_case inp) = 0 \/ finding_sig inp (run_case inp) <> 0.
 Proof. unfold prop_case, finding_sig, run_case. apply model_explained. Qed.
